@@ -21,7 +21,7 @@ func lalrkGram(r *rand.Rand) (*Gram, int) {
 	g.NN = 3
 	var ctx []int
 	for i := 0; i < depth; i++ {
-		switch r.Intn(4) {
+		switch r.Intn(5) {
 		case 0: // terminal
 			ctx = append(ctx, 4+r.Intn(2))
 		case 1: // nonterminal deriving one terminal
@@ -33,6 +33,12 @@ func lalrkGram(r *rand.Rand) (*Gram, int) {
 			nt := g.NT + g.NN
 			g.NN++
 			g.Rules = append(g.Rules, GRule{LHS: nt, RHS: []int{4}}, GRule{LHS: nt, RHS: []int{5}})
+			ctx = append(ctx, nt)
+		case 3: // nonterminal ending in `terminal Nullable` (follow chains leave through a nullable tail)
+			nt := g.NT + g.NN
+			g.NN += 2
+			g.Rules = append(g.Rules, GRule{LHS: nt, RHS: []int{4 + r.Intn(2), nt + 1}},
+				GRule{LHS: nt + 1, RHS: nil}, GRule{LHS: nt + 1, RHS: []int{4}})
 			ctx = append(ctx, nt)
 		default: // nullable nonterminal followed by a terminal
 			nt := g.NT + g.NN
@@ -83,6 +89,37 @@ func lalrkGram(r *rand.Rand) (*Gram, int) {
 	return g, depth + 3
 }
 
+// lalrkGram2: the conflict state is reached from two left contexts, and on the lookahead path of one
+// rule the same terminal is shifted from different states into one shared LR(0) state:
+// S -> x A a P c | y A a P d | x B a b f | y B a b f ; A -> e ; B -> e ; P -> b   (needs k = 3).
+func lalrkGram2(r *rand.Rand) (*Gram, int) {
+	g := &Gram{Shape: "lalrk2", NT: 9}
+	e, x, y, a, b, cc, d, f := 1, 2, 3, 4, 5, 6, 7, 8
+	s, A, B, P := g.NT, g.NT+1, g.NT+2, g.NT+3
+	g.NN = 4
+	t1, t2 := cc, d
+	if r.Intn(2) == 0 {
+		t1, t2 = d, cc
+	}
+	g.Rules = []GRule{
+		{LHS: s, RHS: []int{x, A, a, P, t1}}, {LHS: s, RHS: []int{y, A, a, P, t2}},
+		{LHS: s, RHS: []int{x, B, a, b, f}}, {LHS: s, RHS: []int{y, B, a, b, f}},
+		{LHS: A, RHS: []int{e}}, {LHS: B, RHS: []int{e}}, {LHS: P, RHS: []int{b}},
+	}
+	if r.Intn(2) == 0 { // a second shared sub-nonterminal
+		Q := g.NT + g.NN
+		g.NN++
+		g.Rules[2].RHS = []int{x, B, a, Q, f}
+		g.Rules[3].RHS = []int{y, B, a, Q, f}
+		g.Rules = append(g.Rules, GRule{LHS: Q, RHS: []int{b}})
+		if r.Intn(2) == 0 {
+			g.Rules = append(g.Rules, GRule{LHS: Q, RHS: []int{b, b}})
+		}
+	}
+	g.Inputs = []GInput{{Sym: s, Eoi: true}}
+	return g, 3
+}
+
 func c07(c *Ctx) {
 	c.Rule = "grammars built to need 2-4 tokens of lookahead (two reductions of one RHS whose contexts share a prefix made of terminals, terminal-deriving and nullable nonterminals) plus random CFGs, compiled by the real lalr.Compile with Lookahead k in 2..4; for each grammar that compiles without error: (1) Lean recomputes LALR(k) lookahead strings by item propagation and walks every lookahead automaton in the tables on every string, (2) all token strings up to length 5 + random sentences/mutations are run through the Lean parser model on the real tables and compared with a brute-force recogniser; non-trivial = UsedLADepth > 0; distinct by grammar"
 	n := c.N(250, 4000)
@@ -91,7 +128,11 @@ func c07(c *Ctx) {
 		k := 2 + c.Rng.Intn(3)
 		if c.Rng.Intn(4) != 0 {
 			var need int
-			g, need = lalrkGram(c.Rng)
+			if c.Rng.Intn(5) == 0 {
+				g, need = lalrkGram2(c.Rng)
+			} else {
+				g, need = lalrkGram(c.Rng)
+			}
 			if c.Rng.Intn(3) != 0 && need <= 4 {
 				k = need
 			}
